@@ -155,6 +155,13 @@ func propC23(c *Check) {
 	if f := c.F("(*kernel.Node).popAndProcessCacheQueue"); f != nil {
 		c.RangeLoop(f, "retrieved", Extract(0, Call("iface:storage.Store.CacheRetrieveTransactions")))
 	}
+	// (5c) the two peer delivery paths look at every delivered transaction (a finalized / already
+	// stored one is skipped, it does not end the delivery)
+	for _, n := range []string{"(*kernel.Node).CacheQueueTransactions", "(*kernel.Node).CacheStoreTransactions"} {
+		if f := c.F(n); f != nil {
+			c.RangeLoop(f, "delivered", Param("txs"))
+		}
+	}
 	// (6) Badger's optimistic conflict detection stays on for both databases: the queue's
 	// retrieve-and-delete, the lock takers and the work credit all rely on a conflicting concurrent
 	// transaction being refused
